@@ -318,6 +318,45 @@ def rules(ctx: Ctx) -> None:
     # lower-cased) a quoted reference to a lower-case CTE misses it and is reported as a table
     _common.import_rules(ctx, "C08", {"R08.2": "R07.9"})
 
+    # ---- R07.10 SQL text is never cut, searched or compared at a literal blank: between two words of a keyword there may be a tab or a line break
+    n_blank = 0
+    for f in prog.funcs.values():
+        if not f.mod.name.startswith("sqllineage.core.parser"):
+            continue
+        for k in prog.walk_fn(f):
+            lit = None
+            if isinstance(k, ast.Call) and isinstance(k.func, ast.Attribute) and k.func.attr in ("split", "rsplit", "partition", "rpartition", "startswith", "endswith", "find", "rfind", "index", "count", "replace", "removeprefix", "removesuffix") and k.args:
+                v_ = prog.try_fold(k.args[0], f.mod, f)
+                vs = [v_] if isinstance(v_, str) else [x for x in v_ if isinstance(x, str)] if isinstance(v_, (tuple, list)) else []
+                lit = next((x for x in vs if " " in x), None)
+                recv = k.func.value
+            elif isinstance(k, ast.Compare) and len(k.ops) == 1 and isinstance(k.ops[0], (ast.In, ast.NotIn)) and isinstance(prog.try_fold(k.left, f.mod, f), str) and " " in prog.try_fold(k.left, f.mod, f):
+                lit, recv = prog.try_fold(k.left, f.mod, f), k.comparators[0]
+            if lit is None:
+                continue
+            textual = any(isinstance(x, ast.Attribute) and x.attr in ("raw", "raw_upper", "value", "normalized") for x in prog.influences(f, recv))
+            if textual:
+                n_blank += 1
+                ctx.ob("R07.10", f"no-literal-blank-in-text-operations:{f.owner}", False, loc(f.mod, k),
+                       f"`{u(k)[:70]}` works on SQL text with the literal {lit!r}: the same keyword written with a tab or a line break between its words is not recognised")
+    ctx.ob("R07.10", "no-literal-blank-in-text-operations:scanned", True, "sqllineage/core/parser", f"{n_blank} use(s) found", trivial=True)
+    # ---- R07.11 what each parser skips as negligible includes comments as well as whitespace (both tests in the same predicate: a comment that
+    # survives the trimmer - an optimizer hint - must not stand where a token is expected)
+    n_negl = 0
+    for f in prog.funcs.values():
+        if not f.mod.name.startswith("sqllineage.core.parser"):
+            continue
+        rets_ = [r for r in prog.walk_fn(f) if isinstance(r, ast.Return) and r.value is not None]
+        if len(rets_) != 1 or not any(isinstance(x, ast.Attribute) and x.attr == "is_whitespace" for x in ast.walk(rets_[0].value)):
+            continue
+        if not isinstance(rets_[0].value, (ast.BoolOp, ast.Attribute)):
+            continue
+        n_negl += 1
+        ctx.touched(f)
+        has_comment = any((isinstance(x, ast.Attribute) and x.attr == "is_comment") or (isinstance(x, ast.Call) and isinstance(x.func, ast.Name) and x.func.id == "isinstance" and "Comment" in u(x)) for x in ast.walk(rets_[0].value))
+        ctx.ob("R07.11", f"negligible-includes-comments:{f.owner}", has_comment, f.loc(), f"`{u(rets_[0].value)[:70]}`: " + ("whitespace and comments are skipped" if has_comment else "comments are not skipped"))
+    ctx.floor("predicates that say which tokens are negligible", n_negl, 2)
+
 
 # position API of sqlfluff (PositionMarker and the segment methods that return one)
 _POSITION_API = {"pos_marker", "line_no", "line_pos", "working_line_no", "working_line_pos", "source_slice", "templated_slice", "source_position", "templated_position",
